@@ -394,7 +394,125 @@ func runC09(c *Ctx) {
 		}
 	}
 
+	c09Bookkeeping(c, t)
 	c09Unjournaled(c, t)
+}
+
+// c09Bookkeeping: the journal's own bookkeeping that revert exactness rests on.
+func c09Bookkeeping(c *Ctx, t *c09Tables) {
+	w := c.W
+	// ------------------------------------------------------------ J6
+	c.Rule("C09.J6", "GATE", "createObject journals a plain creation (whose undo forgets the address) only when no previous object — live, or marked deleted by an earlier transaction of the block — existed; otherwise it journals a reset entry that carries that previous object")
+	c.Min(2)
+	co := w.Fn(statePkg, "StateDB", "createObject")
+	c.sawFunc(fname(co))
+	var prevCall ssa.CallInstruction
+	for _, ci := range callInstrs(co) {
+		if o := calleeObj(ci); o != nil && o.Name() == "getDeletedStateObject" {
+			prevCall = ci
+		}
+	}
+	if prevCall == nil {
+		c.Undecided(fname(co)+"#creation-entry", co.Pos(), "createObject no longer looks the previous object up with getDeletedStateObject")
+	} else {
+		for _, a := range callsTo(co, t.append_) {
+			args := callArgs(a)
+			et := stripConv(args[0]).Type()
+			name := types.TypeString(et, func(*types.Package) string { return "" })
+			atoms := atomsOf(factsAtInstr(a))
+			isNilPrev, nonNilPrev, other := false, false, false
+			for _, at := range atoms {
+				if at.Kind == "isnil" && stripConv(at.X) == ssa.Value(prevCall.Value()) {
+					if at.Truth {
+						isNilPrev = true
+					} else {
+						nonNilPrev = true
+					}
+				} else {
+					other = true
+				}
+			}
+			c.sites++
+			switch {
+			case strings.Contains(name, "createObjectChange"):
+				ok := isNilPrev && !other
+				c.Check(fname(co)+"#createObjectChange-only-without-previous", a.Pos(), ok, ifelse(ok, "appended exactly under prev == nil", "a creation entry (whose undo deletes the address from the live set) is journaled although a previous object may exist: reverting it forgets that object — e.g. one marked deleted earlier in the block is reloaded from the trie as if it had never been destroyed"))
+			case strings.Contains(name, "resetObjectChange"):
+				// carries prev
+				carries := false
+				backward(args[0], func(v ssa.Value) bool {
+					if v == ssa.Value(prevCall.Value()) {
+						carries = true
+					}
+					return true
+				})
+				ok := nonNilPrev && carries
+				c.Check(fname(co)+"#resetObjectChange-carries-previous", a.Pos(), ok, ifelse(ok, "appended under prev != nil with the previous object as pre-image", "the reset entry does not carry the previous object"))
+			}
+		}
+	}
+
+	// ------------------------------------------------------------ J7
+	c.Rule("C09.J7", "MIRROR", "the journal counts live entries per address: append raises dirties[addr] by one, revert lowers it by one per undone entry and deletes the key only when the count reaches zero (Finalise flushes exactly the addresses that still have live entries)")
+	c.Min(2)
+	dirtiesF := w.Field(statePkg, "journal", "dirties")
+	ap := w.Fn(statePkg, "journal", "append")
+	rv := w.Fn(statePkg, "journal", "revert")
+	c.sawFunc(fname(ap))
+	c.sawFunc(fname(rv))
+	incr := false
+	for _, fw := range fieldWrites(ap) {
+		if fw.Field == dirtiesF && fw.Kind == "mapupdate" {
+			if bo, ok := fw.Instr.(*ssa.MapUpdate).Value.(*ssa.BinOp); ok && bo.Op == token.ADD {
+				if n, isC := constInt(bo.Y); isC && n == 1 {
+					incr = true
+				}
+			}
+		}
+	}
+	c.Check(fname(ap)+"#dirty-count-up", ap.Pos(), incr, ifelse(incr, "dirties[addr]++", "append no longer counts the entry for its address"))
+	var decr *ssa.MapUpdate
+	var del ssa.CallInstruction
+	for _, fw := range fieldWrites(rv) {
+		if fw.Field != dirtiesF {
+			continue
+		}
+		switch fw.Kind {
+		case "mapupdate":
+			if bo, ok := fw.Instr.(*ssa.MapUpdate).Value.(*ssa.BinOp); ok && bo.Op == token.SUB {
+				if n, isC := constInt(bo.Y); isC && n == 1 {
+					decr = fw.Instr.(*ssa.MapUpdate)
+				}
+			}
+		case "delete":
+			del = fw.Instr.(ssa.CallInstruction)
+		}
+	}
+	okRev := decr != nil
+	why := "revert does not lower the per-address count by one"
+	if decr != nil && del != nil {
+		// the delete is gated by count == 0 after the decrement
+		zero := false
+		for _, a := range atomsOf(factsAtInstr(del)) {
+			if a.Kind == "eq" && a.Truth {
+				if n, isC := constInt(a.Y); isC && n == 0 {
+					if lk, ok := stripConv(a.X).(*ssa.Lookup); ok {
+						if f, _ := loadedField(lk.X); f == dirtiesF {
+							zero = true
+						}
+					}
+				}
+			}
+		}
+		if !zero || !instrDominates(decr, del) {
+			okRev = false
+			why = "the dirty mark of an address is deleted although entries made before the snapshot are still live"
+		}
+	} else if del != nil {
+		okRev = false
+		why = "the dirty mark of an address is deleted without counting down: entries made before the snapshot lose their mark"
+	}
+	c.Check(fname(rv)+"#dirty-count-down", rv.Pos(), okRev, ifelse(okRev, "dirties[addr]-- and delete only at zero", why+": Finalise skips the account and its surviving changes never reach the trie"))
 }
 
 // truncIndexSearchesField: the index derives from sort.Search(len(st.F), func{ st.F[i] ... }).
